@@ -498,9 +498,10 @@ def fs_enum_cases(rng, n):
                 if rng.random() < 0.4:
                     opened.append(where())
                     c.append('dopen %d %s %s 0' % (o, H(opened[-1]), H('')))
-                if rng.random() < 0.4 and not any(x.startswith('../out') for x in opened):
+                if rng.random() < 0.4 and not any(x.startswith('../out') or x.split('/')[0] in lnks or x in lnks for x in opened):
                     # what a link leads to changes between open and read (the directory that is being
-                    # enumerated is left alone: what readdir makes of a change is the kernel's business)
+                    # enumerated is left alone - also when it was opened through a symbolic link: what readdir makes of a change
+                    # is the kernel's business)
                     c.append(rng.choice(['mkd ' + H('../out/t'), 'mkf %s %s' % (H('../out/t'), H(b'x'))]))
                 c.append('dreadall %d' % o)
                 if rng.random() < 0.5:
@@ -1467,13 +1468,13 @@ class C19(Check):
     def run_model(self, cases, tag='model'):
         return self._split_run(cases, lambda cs: self._run_driver(cs, tag, self.model_args))
 
-    # A tree on which the harness crashes or hangs on (nearly) every case: give up early.  The harness runs in chunks (30 cases,
+    # A tree on which the harness crashes or hangs on (nearly) every case: give up early.  The harness runs in chunks (20 cases,
     # doubling while nothing crashes);
     # a watchdog timeout costs per_case_timeout seconds and counts 5, a crash counts 1; after CRASH_CAP points in one stream
     # the rest of that stream, and after TOTAL_CAP in the whole run every remaining stream, is marked '! notrun' (vf drops
-    # such cases); what has been seen is reported.  All cases hanging: 30-60 timeouts = 5-10 minutes; all crashing: 220 reports.
-    CRASH_CAP = 150
-    TOTAL_CAP = 220
+    # such cases); what has been seen is reported.  All cases hanging: 20-46 timeouts = 4-8 minutes; all crashing: 150 reports.
+    CRASH_CAP = 100
+    TOTAL_CAP = 150
     _crashes_seen = 0
 
     def run_impl(self, cases, tag='impl'):
@@ -1482,7 +1483,7 @@ class C19(Check):
         env = {'ASAN_OPTIONS': 'detect_leaks=0:abort_on_error=0:allocator_may_return_null=1:max_allocation_size_mb=2048:symbolize=0'}
         res, crashes, bad = [], {}, 0
         streaming = tag.startswith('impl_')           # the caps are for the streams, not for shrinking / replay
-        chunk, a = 30, 0          # chunks double while nothing crashes and fall back to 30 when something does
+        chunk, a = 20, 0          # chunks double while nothing crashes and fall back to 20 when something does
         while a < len(cases):
             part = cases[a:a + chunk]
             if streaming and (bad >= self.CRASH_CAP or self._crashes_seen >= self.TOTAL_CAP):
@@ -1497,7 +1498,7 @@ class C19(Check):
             if streaming:
                 self._crashes_seen += pts
             a += len(part)
-            chunk = 30 if cr else min(4000, chunk * 2)
+            chunk = 20 if cr else min(4000, chunk * 2)
         if streaming and (bad >= self.CRASH_CAP or self._crashes_seen >= self.TOTAL_CAP):
             vf.log('[C19] %s: %d points of harness crashes (1) / timeouts (5) in this stream (%d in the run): remaining cases not run' % (tag, bad, self._crashes_seen))
         return res, crashes
